@@ -269,6 +269,35 @@ func init() {
 	stdIntrinsics[p+"AsFloat64Slice"] = as
 }
 
+// Cipher contract: feistel.VerifE is an uninterpreted, length-preserving injection
+// (per length n and position i a function E_n_i of all input bytes, with instantiated
+// inverse axioms D_n_i(E(x)) = x_i).
+func init() {
+	stdIntrinsics["github.com/cyrildever/feistel.VerifE"] = func(fr *frame, args []value) value {
+		i := fr.i
+		in := strBytes(args[0])
+		n := len(in)
+		if n == 0 {
+			return ""
+		}
+		i.noteStub("cipher contract: feistel Encrypt = uninterpreted length-preserving injection E with D(E(x)) = x")
+		ts := make([]*smt.Term, n)
+		for k := range in {
+			ts[k] = i.termOf(in[k])
+		}
+		out := make([]*smt.Term, n)
+		res := make([]value, n)
+		for k := 0; k < n; k++ {
+			out[k] = i.ctx.Apply(fmt.Sprintf("E_%d_%d", n, k), smt.BV(8), ts...)
+			res[k] = out[k]
+		}
+		for k := 0; k < n; k++ {
+			i.assumeInternal(i.ctx.Eq(i.ctx.Apply(fmt.Sprintf("D_%d_%d", n, k), smt.BV(8), out...), ts[k]))
+		}
+		return mkStr(res)
+	}
+}
+
 // regexp: compiled natively (pattern compilation/matching is never the subject);
 // the interpreted *regexp.Regexp is an empty shell keyed to the native object.
 func init() {
